@@ -11,7 +11,7 @@
 From TT Require Import Tunnel.ReceiverSpec Tunnel.ReceiverInv Tunnel.ReceiverHistInv
   Tunnel.ReceiverFinalize Tunnel.ReceiverFinalizeProofs Tunnel.ReceiverOrder Tunnel.ReceiverOrderProofs
   Tunnel.ReceiverRestoreOrder Tunnel.ReceiverRestoreOrderProofs
-  Judge.Recv Judge.RecvProofs.
+  Judge.Recv Judge.RecvProofs Judge.C08 Judge.C04 Judge.C04Proofs.
 From stdpp Require Import gmap.
 
 (** ** A. Lifetime bookkeeping *)
@@ -233,6 +233,36 @@ Theorem C04_implementation_restores_context :
   let obs' := zip_mobs (hist_run hist_init (lives_steps ls)) impl in
   stack_apply stk (all_calls obs') = stk ∧ current (stack_apply stk (all_calls obs')) = current stk.
 Proof. exact impl_context_restored. Qed.
+
+(** ** B''. The judge's executable statement is a consequence of the theorems
+
+    [walk] (Judge/C04.v) recomputes from the implementation's snapshots what every finalisation batch
+    must contain and checks balance and the stack.  On every history in scope on which the judge
+    finds model and implementation equal ([corr_history]), that executable statement holds of the
+    implementation's own observations: a [PropFail] verdict without a [Mismatch] is impossible; and
+    the judge's "every lifetime so far satisfied wf_drop" flag is exactly [wf_drop_lives]. *)
+Theorem C04_judge_ok_whenever_corr : ∀ steps impl,
+  hist_scope hist_init steps → corr_history steps impl = true →
+  fst (C04.walk steps impl empty_snap [] true) = true.
+Proof. exact judge_c04_ok_of_corr. Qed.
+
+Theorem C04_judge_ok_on_model : ∀ steps,
+  hist_scope hist_init steps →
+  fst (C04.walk steps (map C08.iobs_of (hist_run hist_init steps)) empty_snap [] true) = true.
+Proof. exact judge_c04_ok_on_model. Qed.
+
+Theorem C04_judge_wf_flag_is_wf_drop_lives : ∀ (ls : list life) tl impl,
+  Forall (λ l : life, is_recv (snd l) = false) ls →
+  let steps := lives_steps ls ++ map SRecv tl in
+  hist_scope hist_init steps → corr_history steps impl = true →
+  snd (C04.walk steps impl empty_snap [] true) = wf_drop_lives hist_init ls.
+Proof. exact walk_snd_lives_of_corr. Qed.
+
+Theorem C04_judge_agrees_whenever_corr : ∀ steps impl reg_ok,
+  hist_scope hist_init steps → corr_history steps impl = true →
+  (wf_walk hist_init steps true = true → reg_ok = true) →
+  judge_c04 steps impl reg_ok = Agree.
+Proof. exact judge_c04_agree_of_corr. Qed.
 
 (** ** C. Rollback and retry *)
 
